@@ -15,6 +15,7 @@ structure St where
   cfg : Cfg := {}
   exec : Option (List WatchEvent) := none    -- `executeHookOnEvent` as written in the hook config
   watch : Option (List WatchEvent) := none   -- `watchEvent` (deprecated alias) as written
+  v0 : Option (List String) := none          -- configVersion v0: the `event` list as written
   ready : Bool := false
   cache : Cache String := []
   known : Spec.Known := []
@@ -56,8 +57,13 @@ def showTypes (l : List WatchEvent) : String :=
 
 /-- The configuration the property speaks about: the event types *listed* by the binding as
 written (`Spec.listed`), not what the loader made of it. -/
+def specListed (st : St) (ev : WatchEvent) : Bool :=
+  match st.v0 with
+  | some names => Spec.listedV0 names ev
+  | none => Spec.listed st.exec st.watch ev
+
 def specCfg (st : St) : Cfg :=
-  { st.cfg with types := [WatchEvent.added, .modified, .deleted].filter (Spec.listed st.exec st.watch) }
+  { st.cfg with types := [WatchEvent.added, .modified, .deleted].filter (specListed st) }
 
 def parseKV (t : String) : Option (Nat × J) :=
   match t.splitOn "=" with
@@ -75,6 +81,16 @@ def specSnap (st : St) : List String :=
 
 def step (st : St) (toks : List String) : St × String :=
   match toks with
+  | "cfg" :: "v0" :: rest =>
+    -- a legacy binding: `event: [add|update|delete …]`; keepFullObjectsInMemory is always on
+    match kv? "event" rest, (kv? "ast" rest).bind optFilter? with
+    | some evs, some f =>
+      let names := strList evs
+      match configuredTypesV0 names with
+      | some ts =>
+        ({ cfg := { types := ts, filter := f, keep := true }, v0 := some names, ready := true }, "ok")
+      | none => ({ v0 := some names }, "err")
+    | _, _ => (st, "bad-op")
   | "cfg" :: rest =>
     match (kv? "exec" rest).bind optTypes?, (kv? "watch" rest).bind optTypes?, kv? "keep" rest,
           (kv? "ast" rest).bind optFilter? with
@@ -91,7 +107,7 @@ def step (st : St) (toks : List String) : St × String :=
     | none => (st, "bad-op")
     | some g =>
       let bad := [WatchEvent.added, .modified, .deleted].filter
-        (fun ev => decide (ev ∈ g) != Spec.listed st.exec st.watch ev)
+        (fun ev => decide (ev ∈ g) != specListed st ev)
       if bad.isEmpty then (st, "true")
       else (st, s!"false want-listed={showTypes (specCfg st).types}")
   | "defaults" :: [] =>
@@ -153,6 +169,26 @@ def step (st : St) (toks : List String) : St × String :=
     if got == "Added,Modified,Deleted" then (st, "true") else (st, "false want=Added,Modified,Deleted")
   | _ => (st, "bad-op")
 
-def suite : Suite St := { init := {}, step := step }
+/-- Several bindings of one hook (each with its own informer, all fed by the same shared informer):
+`bind k` makes binding `k` the current one; every other line goes to the current binding. -/
+structure Multi where
+  cur : Nat := 0
+  st : St := {}
+  saved : List (Nat × St) := []
+
+def stepMulti (m : Multi) (toks : List String) : Multi × String :=
+  match toks with
+  | ["bind", k] =>
+    match k.toNat? with
+    | none => (m, "bad-op")
+    | some k =>
+      if k == m.cur then (m, "ok") else
+      let saved := aset m.cur m.st m.saved
+      ({ cur := k, st := (aget k saved).getD {}, saved := saved }, "ok")
+  | _ =>
+    let r := step m.st toks
+    ({ m with st := r.1 }, r.2)
+
+def suite : Suite Multi := { init := {}, step := stepMulti }
 
 end ShellOp.Drv.C08
